@@ -22,6 +22,9 @@ CONE = ["Base.v", "IR.v", "Show.v", "Build.v", "Sem.v", "Plan.v", "Named.v", "Va
 PROPS = "props/C03.v"
 
 
+DECLARED: dict = {}
+
+
 def make_request(rng, ins, outs, mode):
     """Returns (inputs dict, outputs dict, drop, expectation)."""
     import numpy as np
@@ -39,6 +42,20 @@ def make_request(rng, ins, outs, mode):
         for j in range(rng.randint(1, 2)):
             items.insert(rng.randint(0, len(items)), (f"extra{j}", B.argument(B.Tensor(np.float32, ("N", 3, None)))))
         return dict(items), outs, drop
+    if mode == "varied_types":
+        # inputs/outputs of every shape of type: zero-length, symbolic and unknown dimensions, scalars, other element types
+        shapes = [(0, 3), (0,), (2, 0, 1), ("N", 0), (), ("N",), (None, 2), ("N", "M", 3), (1,), (5, 1, 1)]
+        dtypes = [np.float32, np.float64, np.int64, np.int32, np.uint8, np.bool_, np.str_, np.float16]
+        o = dict(outs)
+        for j in range(rng.randint(1, 3)):
+            dt, sh = rng.choice(dtypes), rng.choice(shapes)
+            a = B.argument(B.Tensor(dt, sh))
+            # what was declared, rendered from the literal (dtype, shape) and not from the library's own Type object
+            DECLARED[id(a)] = (a, B.render_dtype_np(np.dtype(dt)) + "[" + ",".join("?" if d is None else str(d) for d in sh) + "]")
+            items.insert(rng.randint(0, len(items)), (f"t{j}", a))
+            if rng.random() < 0.8:
+                o[f"ot{j}"] = B.op17.identity(a)
+        return dict(items), o, drop
     if mode == "bad_input_kind":
         items.insert(rng.randint(0, len(items)), ("bad", rng.choice([1, "x", None, 2.5])))
         return dict(items), outs, drop
@@ -92,6 +109,9 @@ def direct_oracle(c: B.Case):
     exp = [(k, B.render_spox_type(v.type)) for k, v in want]
     if got != exp:
         problems.append(f"graph inputs {got} != requested {exp} (drop_unused_inputs={drop})")
+    for (k, v), (gn, gt) in zip(want, got):
+        if id(v) in DECLARED and DECLARED[id(v)][1] != gt:
+            problems.append(f"graph input {k} was declared {DECLARED[id(v)][1]} but the model says {gt}")
     goto = [(o.name, B.render_onnx_type(o.type)) for o in m.graph.output]
     expo = [(k, B.render_spox_type(v.type)) for k, v in outs.items()]
     if goto != expo:
@@ -102,7 +122,7 @@ def direct_oracle(c: B.Case):
 def gen_cases(run: Run, n: int):
     rng = run.rng
     g = B.GenX(rng, leak_p=0.0)
-    modes = ["asis"] * 2 + ["after_failed_build"] * 3 + ["permute"] * 4 + ["subset"] * 3 + ["extra"] * 3 + ["bad_input_kind", "bad_output_kind", "non_argument_input", "no_outputs"]
+    modes = ["asis"] * 2 + ["after_failed_build"] * 3 + ["permute"] * 4 + ["subset"] * 3 + ["extra"] * 3 + ["varied_types"] * 4 + ["bad_input_kind", "bad_output_kind", "non_argument_input", "no_outputs"]
     cases = []
     while len(cases) < n:
         ins, outs = g.program()
